@@ -74,6 +74,8 @@ PLAN = {
         {"match": r"fn get_aggregation_timestamp/", "src": "witness_timestamp.rs", "crate": "metrics-exporter-dogstatsd", "file": STATE},
         # the interleaving is replayed step by step through the counter's (private) atomics, hence the test module sits in storage.rs
         {"match": r"fn flush/", "src": "witness_idle_skip.rs", "crate": "metrics-exporter-dogstatsd", "file": ST},
+        # the idle / re-activation clause over two idle periods (also matches messages that name the idle helpers or State::flush)
+        {"match": r"(State :: fn flush|FlushState|idle)", "name": "impl State :: fn flush", "src": "witness_idle_cycle.rs", "crate": "metrics-exporter-dogstatsd", "file": ST},
     ],
     # Findings on the tree as delivered (documentation only; the driver does not read this key).
     # F1 and F2 are repaired by proposed_fix.diff (3 changed lines in state.rs, nextest 24/24); F3 is a proposed known finding.
